@@ -459,6 +459,53 @@ def part_flow_params(_):
     return res
 
 
+RESERVED_NAMES = ["return_value", "activated", "source_flow_instance_uid"]
+
+
+def part_reserved(_):
+    """parameter names / dict keys that the interpreter uses itself for flow events are ordinary names in a user event"""
+    res = {"reserved_name_cases": 0, "violations": []}
+    for name in RESERVED_NAMES:
+        cases = [
+            ("nested", f'Event1(param={{"{name}": 1}})', [({"param": {name: 1}}, True), ({"param": {name: 2}}, False), ({"param": {"x": 2}}, False),
+                                                           ({"param": {name: 1, "x": 2}}, True), ({"param": {}}, False)]),
+            ("nested-in-list", f'Event1(param=[{{"{name}": 1}}])', [({"param": [{name: 1}]}, True), ({"param": [{name: 2}]}, False), ({"param": [{"x": 1}]}, False)]),
+            ("top-level", f"Event1({name}=1)", [({name: 1}, True), ({name: 2}, False), ({"x": 1}, False), ({name: 1, "x": 3}, True)]),
+            ("top-level-with-other", f"Event1({name}=1, a=1)", [({name: 1, "a": 1}, True), ({name: 2, "a": 1}, False), ({"a": 1, "b": 2}, False)]),
+        ]
+        for where, pat, feeds in cases:
+            src = f"flow main\n  match {pat}\n  send Marker()\n  match Never()\n"
+            try:
+                base = v2x.init_state(src)
+                v2x.step(base, v2x.resolve_event(base, ("start_main",)), [], v2x.UIDS.n)
+            except Exception as e:
+                res["violations"].append((f"reserved-name:{where}:program-raised", f"`match {pat}`: {e!r}", {"engine": "C04-ref", "source": src, "event": {"type": "Event1"}}))
+                continue
+            n0 = v2x.UIDS.n
+            for payload, exp in feeds:
+                st = v2x.copy_state(base)
+                ev = dict(payload, type="Event1")
+                try:
+                    v2x.step(st, ev, [], n0)
+                    got = any(e["type"] == "Marker" for e in st.outgoing_events)
+                except Exception as e:
+                    res["violations"].append((f"reserved-name:{where}:raised", f"`match {pat}` fed {payload}: {e!r}", {"engine": "C04-ref", "source": src, "event": ev}))
+                    continue
+                res["reserved_name_cases"] += 1
+                if got != exp:
+                    kind = "written-parameter-ignored" if got else "equal-value-not-matched"
+                    res["violations"].append((f"reserved-name:{where}:{kind}",
+                                              f"`match {pat}` fed Event1{payload}: expected advance={exp}, got {got} (the name `{name}` is skipped by the matcher)",
+                                              {"engine": "C04-ref", "source": src, "event": ev}))
+    seen, uniq = set(), []
+    for v in res["violations"]:
+        if v[0] not in seen:
+            seen.add(v[0])
+            uniq.append(v)
+    res["violations"] = uniq
+    return res
+
+
 def run(rep, tier):
     from vf import par
 
@@ -528,6 +575,10 @@ def run(rep, tier):
     pr = part_progress(None)
     for sig, what, rp in pr["violations"]:
         rep.violation(sig, what, rp)
+    rn = part_reserved(None)
+    for sig, what, rp in rn["violations"]:
+        rep.violation(sig, what, rp)
+    rep.set("reserved_name_cases", rn["reserved_name_cases"])
     fp = part_flow_params(None)
     for sig, what, rp in fp["violations"]:
         rep.violation(sig, what, rp)
